@@ -419,7 +419,16 @@ pub fn apply_edit(fs: &mut FileState, model: &mut Model, who: Actor, edit: &Edit
                             format!("{ind}{}", w.join(" "))
                         }
                     };
+                    let (old_writers, old_last) = model.get(&old).map(|e| (e.writers.clone(), Some(e.last))).unwrap_or_default();
                     model.wrote(&new, who, true);
+                    if let Some(e) = model.map.get_mut(&key_of(&new)) {
+                        // most of the line's text is still what its earlier writers typed: they
+                        // stay in `writers` (safety rule), the last substantive editor is `who`
+                        e.writers.extend(old_writers.iter().cloned());
+                        if let Some(l) = old_last {
+                            e.prev_chain.insert(l);
+                        }
+                    }
                     model.carry_neighbor_marks(&old, &new);
                     fs.lines[i] = new;
                 }
